@@ -423,6 +423,24 @@ impl<KT: DbMapKeyType> KeyPiece<KT> {
     }
 }
 
+/// sizing probe: for the key and every pair (value offset, next key offset)
+/// returns (encoded size estimated by write_piece, piece size it reserves).
+#[cfg(feature = "verif_hooks")]
+pub fn verif_key_slot_sizes<KT: DbMapKeyType>(key: KT, offsets: &[(u64, u64)]) -> Vec<(u32, u32)> {
+    let piece_mgr = PieceMgr::new(&REC_SIZE_FREE_OFFSET, &REC_SIZE_ARY);
+    let mut piece =
+        KeyPiece::with_key_value_next(key, ValuePieceOffset::new(0), KeyPieceOffset::new(0));
+    let mut vec = Vec::with_capacity(offsets.len());
+    for &(value_offset, next_offset) in offsets {
+        piece.value_offset = ValuePieceOffset::new(value_offset);
+        piece.bucket_next_offset = KeyPieceOffset::new(next_offset);
+        let (encorded_piece_len, piece_len, _key_len) = piece.encoded_piece_size();
+        let size = piece_mgr.roundup(KeyPieceSize::new(encorded_piece_len + piece_len));
+        vec.push((encorded_piece_len + piece_len, size.as_value()));
+    }
+    vec
+}
+
 impl<KT: DbMapKeyType> VarFileKeyCache<KT> {
     fn delete_piece(&mut self, offset: KeyPieceOffset) -> Result<KeyPieceSize> {
         let old_piece_size = {
@@ -471,6 +489,8 @@ impl<KT: DbMapKeyType> VarFileKeyCache<KT> {
             } else {
                 // delete old and add new
                 // old
+                #[cfg(feature = "verif_hooks")]
+                crate::verif_hooks::note("key_relocate");
                 self.0.push_free_piece_list(piece.offset, old_piece_size)?;
             }
         }
